@@ -18,8 +18,10 @@ from mc.engine import exc_symptom, short_tb
 
 ID = "C08"
 RULE = ("product explorer (+ depth-2 compositions): (Kruskal holder: shape x rank x every weight pattern over "
-        "{2,-1,0,1}^R x zero-column variant, integer factor matrices) x (re-parameterising operation with every "
-        "argument from its finite domain).  Invariant per transition: the Kruskal value recomputed from "
+        "{2,-1,0,1}^R x zero-column variant, integer factor matrices; for stand-alone fixsigns additionally every per-mode "
+        "sign pattern of every component's columns) x (re-parameterising operation with every argument from its finite "
+        "domain; every integer argument that designates a mode or a component both as a Python int and as a numpy "
+        "integer scalar, scalar factors as Python and numpy scalars).  Invariant per transition: the Kruskal value recomputed from "
         "weights/factor_matrices with the reference formula is unchanged within 1e-12*scale (bit-exact for the "
         "operations that only move, negate or multiply by integers), and the normal form promised by the operation "
         "holds.  Non-trivial: >= 2 cells and a non-zero denoted array.")
@@ -32,19 +34,26 @@ ASSUMPTIONS = ["reference Kruskal formula (np.einsum) in mc/refmodel.py",
                "after normalize/arrange the weights are compared with |w_r| * prod_n ||u_n,r|| (0 for a component with a zero "
                "column), which pins the component order when no sorting is requested",
                "extract(): the empty selection is not enumerated (the library rejects it by design, upstream tests pin that)",
+               "numpy integer scalars (np.int64, what np.argmax / np.arange hand out) are admissible wherever a mode or component "
+               "index is documented as int, np.float64 / np.int64 wherever a scalar factor is; the library accepts "
+               "(int, np.integer) throughout pyttb_utils",
                "score: the returned flag is not asserted (its polarity is pinned by the upstream functional tests)"]
 BOUNDS = {
     "quick": "shapes order<=3,size<=3,cells<=12 (N>=1) + five 4-way shapes; ranks 1-3; all weight patterns "
              "{2,-1,0,1}^R (rank 3 on order>=3 shapes: 16 patterns); zero column none/first-mode/last-mode; normalize: normtype{2,1} x wf{None,all,each mode} "
              "x sort x mode; arrange: sort, each wf, every permutation in 3 forms; fixsigns(); redistribute(each n); "
-             "12 depth-2 compositions; extract: every ordered subset x forms; permute: all N! x forms; "
-             "tovec/from_vector (1d,col,row) / update (every sorted mode subset incl. -1) / tolist (None, each n); "
-             "+,-,neg,pos, scalar*(5 scalars, both sides); fixsigns(ref): ref = flipped self / flipped other, every "
+             "every int-valued wf / mode argument as int and np.int64; "
+             "12 depth-2 compositions; extract: every ordered subset x forms (single index: int, np.int64); permute: all N! x forms; "
+             "tovec/from_vector (1d,col,row) / update (every sorted mode subset incl. -1; single mode: int, np.int64) / "
+             "tolist (None, each n as int and np.int64); "
+             "+,-,neg,pos, scalar*(7 scalars: float, int, np.float64, np.int64; both sides); fixsigns() and fixsigns();fixsigns() "
+             "on the small weight family x every per-mode column sign pattern {+-1}^N per component (full product if <=64 "
+             "else uniform+staggered; reaches components with 4 negative modes on the 4-way shapes); fixsigns(ref): ref = flipped self / flipped other, every "
              "per-mode sign pattern {+-1}^N per component (full product if <=64 else uniform+staggered), RB<=RA; "
              "score (weights: all for R<=2, 8 patterns for R=3) vs every ordered subset x 5 (pair-flip pattern, penalty) "
              "combinations + an unrelated tensor",
     "thorough": "shapes order<=4,size<=3,cells<=18; all weight patterns everywhere (score: 16 patterns for rank 3); same operations "
-                "plus normtype inf; full flip product up to 512 patterns",
+                "plus normtype inf; full flip / column-sign product up to 512 patterns",
 }
 CHUNK = 12
 TOL = 1e-12
@@ -65,6 +74,25 @@ def _shapes(tier):
 def _hold(shape, R, w, seed, zc=None, salt=0):
     return {"kind": "ktensor", "shape": list(shape), "rank": R, "weights": [float(x) for x in w],
             "salt": salt + seed, "vseed": seed, "zero_col": zc}
+
+
+def _parts(h):
+    """Reference parameters of a holder; "signs" (one +-1 per mode for every component) negates columns."""
+    w, U = H.ktensor_parts(h)
+    for r, row in enumerate(h.get("signs") or []):
+        for n, sg in enumerate(row):
+            if sg < 0:
+                U[n][:, r] = -U[n][:, r]
+    return w, U
+
+
+def _build(h):
+    if not h.get("signs"):
+        return H.build(h)
+    import pyttb as ttb
+
+    w, U = _parts(h)
+    return ttb.ktensor([u.copy(order="F") for u in U], w.copy())
 
 
 def _zero_cols(N, R):
@@ -127,6 +155,9 @@ def gen_cases(tier, seed):
             for RB in sorted({R, max(1, R - 1)}, reverse=True):
                 mode = "full" if (2 ** N) ** RB <= cap else "uniform+staggered"
                 yield {"check": "fixsigns_ref", "h": h, "ref": ref, "RB": RB, "flipset": mode}
+    for h in _objects(tier, seed, "small"):
+        N, R = len(h["shape"]), h["rank"]
+        yield {"check": "fixsigns_signs", "h": h, "flipset": "full" if (2 ** N) ** R <= cap else "uniform+staggered"}
     for h in _objects(tier, seed, "score"):
         yield {"check": "score", "h": h}
 
@@ -223,7 +254,14 @@ def _form(seq, form):
         return np.array([int(i) for i in seq], dtype=int)
     if form == "int":
         return int(seq[0])
+    if form == "npint":
+        return np.int64(seq[0])
     raise ValueError(form)
+
+
+def _int(i, as_np):
+    """An integer argument as a Python int or as the numpy integer scalar that np.argmax / np.arange hand out."""
+    return np.int64(i) if as_np else int(i)
 
 
 class Probe:
@@ -285,8 +323,12 @@ def _v_normalize(N, nts):
         for wf in [None, "all"] + list(range(N)):
             for sort in (False, True):
                 out.append({"op": "normalize", "nt": nt, "wf": wf, "sort": sort, "mode": None})
+            if isinstance(wf, int):
+                for sort in (False, True):
+                    out.append({"op": "normalize", "nt": nt, "wf": wf, "sort": sort, "mode": None, "np": True})
         for n in range(N):
             out.append({"op": "normalize", "nt": nt, "wf": None, "sort": False, "mode": n})
+            out.append({"op": "normalize", "nt": nt, "wf": None, "sort": False, "mode": n, "np": True})
     return out
 
 
@@ -294,6 +336,7 @@ def _v_arrange(N, R):
     out = [{"op": "arrange", "wf": None, "perm": None}]
     for k in range(N):
         out.append({"op": "arrange", "wf": k, "perm": None})
+        out.append({"op": "arrange", "wf": k, "perm": None, "np": True})
     for p in itertools.permutations(range(R)):
         for form in ("list", "tuple", "array"):
             out.append({"op": "arrange", "wf": None, "perm": list(p), "form": form})
@@ -303,6 +346,7 @@ def _v_arrange(N, R):
 def _v_inplace(N, R, nts):
     vs = _v_normalize(N, nts) + _v_arrange(N, R) + [{"op": "fixsigns"}]
     vs += [{"op": "redistribute", "mode": n} for n in range(N)]
+    vs += [{"op": "redistribute", "mode": n, "np": True} for n in range(N)]
     last = N - 1
     rot = list(range(1, R)) + [0]
     seqs = [
@@ -328,19 +372,20 @@ def _v_inplace(N, R, nts):
 
 def _opname(v):
     op = v["op"]
+    npi = ":npint" if v.get("np") else ""
     if op == "normalize":
         if v["mode"] is not None:
-            return "ktensor.normalize", "mode"
+            return "ktensor.normalize", "mode" + npi
         wf = "none" if v["wf"] is None else ("all" if v["wf"] == "all" else "k")
-        return "ktensor.normalize", wf + ("+sort" if v["sort"] else "")
+        return "ktensor.normalize", wf + npi + ("+sort" if v["sort"] else "")
     if op == "arrange":
         if v["perm"] is not None:
             return "ktensor.arrange", "perm:" + v["form"]
-        return "ktensor.arrange", "sort" if v["wf"] is None else "wf"
+        return "ktensor.arrange", "sort" if v["wf"] is None else "wf" + npi
     if op == "fixsigns":
         return "ktensor.fixsigns", ""
     if op == "redistribute":
-        return "ktensor.redistribute", ""
+        return "ktensor.redistribute", npi[1:]
     raise ValueError(op)
 
 
@@ -349,18 +394,19 @@ def _invoke(K, v):
     if op == "normalize":
         nt = np.inf if v["nt"] == "inf" else v["nt"]
         if v["mode"] is not None:
-            return K.normalize(normtype=nt, mode=v["mode"])
-        return K.normalize(weight_factor=v["wf"], sort=v["sort"], normtype=nt)
+            return K.normalize(normtype=nt, mode=_int(v["mode"], v.get("np")))
+        wf = _int(v["wf"], v.get("np")) if isinstance(v["wf"], int) else v["wf"]
+        return K.normalize(weight_factor=wf, sort=v["sort"], normtype=nt)
     if op == "arrange":
         if v["perm"] is not None:
             return K.arrange(permutation=_form(v["perm"], v["form"]))
         if v["wf"] is None:
             return K.arrange()
-        return K.arrange(weight_factor=v["wf"])
+        return K.arrange(weight_factor=_int(v["wf"], v.get("np")))
     if op == "fixsigns":
         return K.fixsigns()
     if op == "redistribute":
-        return K.redistribute(v["mode"])
+        return K.redistribute(_int(v["mode"], v.get("np")))
     raise ValueError(op)
 
 
@@ -512,9 +558,12 @@ def _step(p, K, v, A, scale, shape, R, suffix=""):
             if len(bad) > 1:
                 p.fail(name, "not_normal_form", f"component {r}: modes {bad} keep a negative largest entry", variant)
                 good = False
-            if len(_fixsigns_bad(U0, r)) >= 2:
+            nb = len(_fixsigns_bad(U0, r))
+            if nb >= 2:
                 p.ctx.flag("fixsigns:pair_flipped")
-            if len(_fixsigns_bad(U0, r)) % 2:
+            if nb >= 4:
+                p.ctx.flag("fixsigns:two_pairs_flipped")
+            if nb % 2:
                 p.ctx.flag("fixsigns:odd_negative")
         good &= p.value(name, K, A, scale, variant)
     elif op == "redistribute":
@@ -539,7 +588,7 @@ def _run_inplace(case, ctx):
     h = case["h"]
     shape, R = tuple(h["shape"]), h["rank"]
     N = len(shape)
-    w, U = H.ktensor_parts(h)
+    w, U = _parts(h)
     A = rm.kruskal(w, U)
     scale = scale_of(w, U)
     ctx.state()
@@ -549,7 +598,7 @@ def _run_inplace(case, ctx):
     for v in vs:
         sub = {"check": "inplace", "h": h, "only": v}
         p = Probe(ctx, sub)
-        K = H.build(h)
+        K = _build(h)
         if v["op"] == "seq":
             suffix = ""
             for st in v["steps"]:
@@ -560,6 +609,17 @@ def _run_inplace(case, ctx):
             _step(p, K, v, A, scale, shape, R)
 
 
+def _run_fixsigns_signs(case, ctx):
+    """Stand-alone fixsigns() over the sign dimension of the holder: every per-mode sign pattern {+-1}^N of every
+    component's columns (the same pattern sets as for fixsigns(other)).  Each pattern is an `inplace` sub-case."""
+    h = case["h"]
+    N, R = len(h["shape"]), h["rank"]
+    for flips in _flip_patterns(N, R, case["flipset"]):
+        for v in ({"op": "fixsigns"},
+                  {"op": "seq", "steps": [{"op": "fixsigns"}, {"op": "fixsigns"}]}):
+            _run_inplace({"check": "inplace", "h": dict(h, signs=flips), "only": v}, ctx)
+
+
 # ---------------------------------------------------------------------------
 # component selection, mode permutation, copies
 
@@ -568,7 +628,7 @@ def _v_select(N, R):
     out = [{"op": "copy"}, {"op": "extract_none"}]
     for k in range(1, R + 1):
         for sel in itertools.permutations(range(R), k):
-            forms = ["list", "tuple", "array"] + (["int"] if k == 1 else [])
+            forms = ["list", "tuple", "array"] + (["int", "npint"] if k == 1 else [])
             for form in forms:
                 out.append({"op": "extract", "sel": list(sel), "form": form})
     for order in itertools.permutations(range(N)):
@@ -633,12 +693,13 @@ def _v_vector(N, R):
     modes_all = [-1] + list(range(N))
     for k in range(1, len(modes_all) + 1):
         for sub in itertools.combinations(modes_all, k):
-            forms = ["list", "array"] + (["int"] if k == 1 else [])
+            forms = ["list", "array"] + (["int", "npint"] if k == 1 else [])
             for form in forms:
                 out.append({"op": "update", "modes": list(sub), "form": form})
     out.append({"op": "tolist", "mode": None})
     for n in range(N):
         out.append({"op": "tolist", "mode": n})
+        out.append({"op": "tolist", "mode": n, "np": True})
     return out
 
 
@@ -716,8 +777,8 @@ def _run_vector(case, ctx):
                     p.value("ktensor.update", Kr, A, scale, var, exact=True)
         elif op == "tolist":
             m = v["mode"]
-            var = "spread" if m is None else "mode"
-            ok, L = p.call("ktensor.tolist", lambda: K.tolist() if m is None else K.tolist(m), var)
+            var = "spread" if m is None else ("mode:npint" if v.get("np") else "mode")
+            ok, L = p.call("ktensor.tolist", lambda: K.tolist() if m is None else K.tolist(_int(m, v.get("np"))), var)
             if not ok:
                 continue
             if not isinstance(L, list) or len(L) != N or not all(
@@ -753,7 +814,7 @@ def _run_vector(case, ctx):
 # algebra
 
 
-_SCALARS = [2.0, -3, 0.5, 0, -1.0]
+_SCALARS = [2.0, -3, 0.5, 0, -1.0, np.float64(-2.0), np.int64(3)]  # Python and numpy scalars
 
 
 def _others(h):
@@ -1075,6 +1136,7 @@ def _run_score(case, ctx):
 
 
 _REQUIRED_FLAGS = ["normalize:negative_weight", "normalize:zero_column", "fixsigns:pair_flipped",
+                   "fixsigns:two_pairs_flipped",
                    "fixsigns:odd_negative", "fixsigns_ref:none_negative", "fixsigns_ref:even_negative",
                    "fixsigns_ref:all_negative_odd", "fixsigns_ref:odd_flip_one_more",
                    "fixsigns_ref:odd_flip_one_fewer", "score:unique_matching", "tolist:unit_weights"]
